@@ -190,6 +190,60 @@ def corpus_cases():
     ]
 
 
+def gen_mux_case(rng):
+    """Two real muxes (or a real mux against a raw flooding peer) with rate limited stream queues."""
+    def rate():
+        return [str(rng.choice([1, 1, 2, 3, 5])), str(rng.choice([3, 10, 10, 25, 100, 1000]))]
+    flood = rng.chance(1, 3)
+    ra, rb = rate(), rate()
+    if not flood and rng.chance(1, 4):
+        ra = [str(USIZE_MAX), "0"]   # one side unlimited (Rate::INF)
+    unit = int(rb[1])
+    advs = []
+    for _ in range(rng.range(8, 40)):
+        advs.append(str(rng.choice([1, unit // 2 + 1, unit, unit, unit - 1, 2 * unit, unit * rng.range(1, 6), rng.range(1, 3 * unit)])))
+    holds = lambda: [str(rng.choice([0, 0, 1, unit // 2, unit, 3 * unit])) for _ in range(rng.range(1, 3))]
+    c = {"mode": "flood" if flood else "pair", "ma": rng.range(1, 4), "mb": rng.range(1, 4), "ra": ra, "rb": rb,
+         "na": rng.range(1, 5), "nb": rng.range(1, 5), "hold_a": holds(), "hold_b": holds(), "advs": advs,
+         "rounds": rng.range(5, 60), "kind": "mux-flood" if flood else "mux-pair"}
+    return c
+
+
+def mux_predicate(c, o):
+    """Per side: streams handed to the application (one OPEN each) in any window within that side's own
+    rate; simultaneously open streams within min(ma, mb)."""
+    bad = []
+    if "panic" in o:
+        return [{"failed": "mux harness panicked: " + o["panic"]}]
+    n = min(c["ma"], c["mb"])
+    for side, rate in ((0, c["ra"]), (1, c["rb"])):
+        burst, refresh = int(rate[0]), int(rate[1])
+        cur = 0
+        opens = []
+        for e in o["events"]:
+            if e[0] != side:
+                continue
+            cur += e[1]
+            if e[1] == 1:
+                opens.append((int(e[2]), 1))
+            if cur > n:
+                bad.append({"failed": f"side {side}: {cur} transient streams open at once > min(local, peer) limit {n}", "at": e[2]})
+                break
+        if refresh > 0:
+            w = window_violation(opens, burst, refresh)
+            if w:
+                bad.append({"failed": f"side {side}: {w['permits']} streams opened in [{w['from']},{w['to']}] > burst + T/refresh + 1 = {w['bound']}", "window": w})
+    return bad
+
+
+def coq_trace(c, o, side):
+    """Observed (time, open?) events of one side as a Coq term for Model.Limiter.accept_trace."""
+    rate = c["ra"] if side == 0 else c["rb"]
+    evs = coq_list([f"({coq_z(e[2])}, {'true' if e[1] == 1 else 'false'})" for e in o["events"] if e[0] == side])
+    n = min(c["ma"], c["mb"])
+    return f"({coq_z(rate[0])}, {coq_z(rate[1])}, {n}%nat, {evs})"
+
+
 # ---------------------------------------------------------------------------
 # translation
 
@@ -352,7 +406,7 @@ def run(rep):
     po = common.proof_obligations(PROP_FILES)
     if not po["ok"]:
         broken.append("Coq obligations of Properties/C15.v: " + (po["log_tail"] or str(po["hygiene_problems"] or po["bad_axioms"])))
-    ok, out = common.cargo_build(["limiter"], "dev")
+    ok, out = common.cargo_build(["limiter", "limiter_mux"], "dev")
     if not ok:
         raise common.MachineryError("cargo build failed: " + out[-2000:])
     cases, twins = build_cases(rng, tier)
@@ -366,8 +420,12 @@ def run(rep):
     distinct = set()
     nacq = ngr = ncancel = 0
     for i, (c, o) in enumerate(zip(cases, outs)):
-        if "crash" in o or "skipped" in o:
-            raise common.MachineryError(f"harness crashed on case {i}: {o}")
+        if "skipped" in o:
+            continue
+        if "crash" in o:
+            # the process died: a panic that cannot unwind (e.g. inside Permit::drop) aborts the harness
+            pred_fail.append({"case": strip(c), "impl": o, "failed": "the limiter aborted the process (panic that cannot unwind): " + str(o.get("stderr", ""))[-200:]})
+            continue
         kinds[c["kind"]] = kinds.get(c["kind"], 0) + 1
         coq_cases.append((i, coq_case(c), common.to_obsv(impl_obs(o))))
         for b in predicate(c, o):
@@ -380,6 +438,8 @@ def run(rep):
             ncancel += sum(1 for s in o["status"] if s == 3)
     twin_checked = 0
     for (a, b) in twins:
+        if any(k in outs[x] for x in (a, b) for k in ("crash", "skipped")):
+            continue
         f = twin_predicate(cases[a], outs[a], cases[b], outs[b])
         if "panic" not in outs[b] and outs[b]["status"][cases[b]["twin_of"]] == 3:
             twin_checked += 1
@@ -390,11 +450,47 @@ def run(rep):
                                       coq_cases, shard_size=(40 if tier == "quick" else 400), sample_ids=sample_ids)
     if mm:
         broken.append(f"correspondence vh limiter vs Model.Limiter.run_case: {len(mm)} disagreeing scripts")
+    # ---- RPC half at mux level: real Mux + StreamQueue limiters, trace acceptance by the StreamQueue model
+    nmux = 60 if tier == "quick" else 1500
+    mcases = [gen_mux_case(rng) for _ in range(nmux)]
+    mouts = common.run_impl("limiter_mux", mcases, "dev")
+    mux_fail, traces, mux_opens = [], [], 0
+    for i, (c, o) in enumerate(zip(mcases, mouts)):
+        if "skipped" in o:
+            continue
+        if "crash" in o:
+            mux_fail.append({"case": c, "impl": o, "failed": "the mux harness process aborted: " + str(o.get("stderr", ""))[-200:]})
+            continue
+        kinds[c["kind"]] = kinds.get(c["kind"], 0) + 1
+        for b in mux_predicate(c, o):
+            mux_fail.append({"case": c, "impl": o, **b})
+        if "panic" in o:
+            continue
+        mux_opens += sum(1 for e in o["events"] if e[1] == 1)
+        for side in ((1,) if c["mode"] == "flood" else (0, 1)):
+            evs = [e for e in o["events"] if e[0] == side]
+            nop = sum(1 for e in evs if e[1] == 1)
+            traces.append((len(traces), coq_trace(c, o, side), common.to_obsv([1, len(evs), nop]), i, side))
+    tmm, tsamp = common.run_model_cases("C15mux", "From EC Require Import Model.Limiter.", "Model.Limiter.accept_trace",
+                                        [(t[0], t[1], t[2]) for t in traces], shard_size=(8 if tier == "quick" else 100), sample_ids=[0, 1])
+    if tmm:
+        broken.append(f"trace acceptance vh limiter_mux vs Model.Limiter.accept_trace: {len(tmm)} observed traces are not runs of the StreamQueue model")
+    if mux_fail and not pred_fail:
+        mux_fail.sort(key=lambda f: len(f["impl"].get("events", [])))
+        rep.violation("stream opening violates C15 on the implementation (mux level): " + mux_fail[0]["failed"],
+                      {"failing_input": mux_fail[0], "more": [f["failed"] for f in mux_fail[1:6]], "broken": broken})
+    elif tmm and not pred_fail and not mm:
+        k = sorted(tmm)[0]
+        t = traces[k]
+        rep.violation("C15 no longer shown to hold: " + broken[-1],
+                      {"broken": broken, "first_disagreement": {"case": mcases[t[3]], "side": t[4], "impl": mouts[t[3]], "model_obs": tmm[k],
+                                                                "meaning": "[accepted, events consumed before rejection, opens]"}},
+                      found_input=False)
     if pred_fail:
         pred_fail.sort(key=lambda f: len(f["case"]["ops"]))
         rep.violation("rate limiter violates C15 on the implementation: " + pred_fail[0]["failed"],
                       {"failing_input": pred_fail[0], "more": [f["failed"] for f in pred_fail[1:6]], "broken": broken})
-    elif broken:
+    elif broken and not mux_fail and not (tmm and not mm):
         first = None
         if mm:
             i = min(mm, key=lambda i: len(cases[i]["ops"]))
@@ -402,22 +498,25 @@ def run(rep):
         rep.violation("C15 no longer shown to hold: " + "; ".join(broken)[:600],
                       {"broken": broken, "first_disagreement": first}, found_input=False)
     cov.update({
-        "obligations": po["obligations"] + 1,
-        "discharged": po["discharged"] + (0 if mm else 1),
+        "obligations": po["obligations"] + 2,
+        "discharged": po["discharged"] + (0 if mm else 1) + (0 if tmm else 1),
         "checker_cmd": "./coqmake theories/Properties/C15.vo (make, coqc 8.16.1) + coqc on generated build/cases/C15/cases_*.v (vm_compute of Model.Limiter.run_case vs the harness output)",
         "trusted_base": common.standard_trusted_base([
             "H-ATOM: tokio Mutex is FIFO-fair, watch::Sender::send_modify / wait_for critical sections and std Mutex sections are atomic (the grain of the step relation)",
             "ctx::ManualClock is the clock (the real clock enters only through ctx.now() / sleep_until_deadline); clock readings stay below the overflow point of time::Instant",
-            "RPC half: mux reusable stream / rpc::Server are modelled (permit per OPEN, one stream per in-flight call) but not run against the code by this check",
+            "RPC half: the StreamQueue model (permit per OPEN) is tied to mux/reusable_stream.rs by trace acceptance of real Mux runs (hooks VMux/VQueue); rpc::Server::serve (one reserved stream per in-flight call) is modelled by reading only",
         ]),
         "theorems": po["theorems"], "axioms": po["axioms"],
-        "evaluations": len(cases),
+        "evaluations": len(cases) + len(mcases),
+        "mux_cases": len(mcases), "mux_traces_accepted_by_model": len(traces) - len(tmm), "mux_traces": len(traces), "mux_streams_opened": mux_opens,
+        "mux_predicate_failures": len(mux_fail),
         "distinct_nontrivial": len(distinct),
-        "rule": "scripts of 4-45 (thorough: up to 140) ops over one Limiter: acquire(p) with p in {1, 0, 1..burst, burst, burst+1, usize::MAX} (1/3 cancellable through their ctx, 2/3 by dropping the future), cancel k, drop k (live targets 6/7, arbitrary 1/7), clock advances {0,1,r-1,r,r+1,k*r,sub-tick,huge}; burst in {0,1..30,2^k,usize::MAX}, refresh in {1..10 ns, ms..s, random, 10^18, 0, negative}, start offset; + flood scripts (back-to-back acquire(1), consume at once) + twin scripts (inserted acquire+cancel); non-trivial = distinct scripts in which some acquire had to wait (granted later than issued, pending at the end, or cancelled)",
+        "rule": "scripts of 4-45 (thorough: up to 140) ops over one Limiter: acquire(p) with p in {1, 0, 1..burst, burst, burst+1, usize::MAX} (1/3 cancellable through their ctx, 2/3 by dropping the future), cancel k, drop k (live targets 6/7, arbitrary 1/7), clock advances {0,1,r-1,r,r+1,k*r,sub-tick,huge}; burst in {0,1..30,2^k,usize::MAX}, refresh in {1..10 ns, ms..s, random, 10^18, 0, negative}, start offset; + flood scripts (back-to-back acquire(1), consume at once) + twin scripts (inserted acquire+cancel) + mux cases (1-3 x 1-3 streams, 1-4 app tasks per side looping open/hold/drop, rates burst 1-5 / refresh 3-1000 ns or INF, pair or raw flood peer); non-trivial = distinct scripts in which some acquire had to wait (granted later than issued, pending at the end, or cancelled)",
         "input_distribution": dict(kinds, acquires=nacq, grants=ngr, cancelled=ncancel, twin_pairs=len(twins), twin_pairs_with_cancelled_wait=twin_checked),
-        "samples": [{"case": strip(cases[i]), "impl": outs[i], "model_obs": samp.get(i)} for i in sample_ids if i < len(cases)],
+        "samples": [{"case": strip(cases[i]), "impl": outs[i], "model_obs": samp.get(i)} for i in sample_ids if i < len(cases)]
+                   + [{"mux_case": mcases[t[3]], "side": t[4], "impl": mouts[t[3]], "model_accept_trace": tsamp.get(t[0])} for t in traces[:2]],
         "correspondence_mismatches": len(mm), "predicate_failures": len(pred_fail),
-        "partial": "proved for the limiter (all step sequences of the atomic-step model, which the scripts refine) and for the permit-per-OPEN model of a StreamQueue; the tie of the RPC half to mux/reusable_stream.rs + rpc/mod.rs is by reading only (no harness for rpc::Service; see proposed_hooks/C15.diff), concurrency <= INFLIGHT relies on C14 open_streams_bounded",
+        "partial": "proved for the limiter (all step sequences of the atomic-step model, which the scripts refine) and for the permit-per-OPEN model of a StreamQueue; the RPC half is tied to the code at mux level only (real Mux pairs / a raw flooding peer under ManualClock: window and concurrency predicates + acceptance of the observed open/close traces by the model); rpc::Service itself (Server::serve, ReservedCall) is not driven (no hook; see proposed_hooks/C15.diff); concurrency <= INFLIGHT relies on C14 open_streams_bounded for the number of reusable streams",
     })
     rep.assumptions += ["H-ATOM (fair tokio Mutex, atomic watch/Mutex critical sections)",
                         "monotone clock; readings below time::Instant overflow"]
@@ -430,7 +529,16 @@ def replay(path):
         print("no concrete input in replay file:", d.get("broken"))
         return 1
     c = fi["case"]
-    common.cargo_build(["limiter"], "dev")
+    common.cargo_build(["limiter", "limiter_mux"], "dev")
+    if "mode" in c:
+        o = common.run_impl("limiter_mux", [c], "dev")[0]
+        print("case:", json.dumps(c))
+        print("impl:", json.dumps(o))
+        print("predicate:", mux_predicate(c, o))
+        trs = [(side, coq_trace(c, o, side), common.to_obsv([1, 0, 0])) for side in ((1,) if c["mode"] == "flood" else (0, 1))]
+        mm, samp = common.run_model_cases("C15mux", "From EC Require Import Model.Limiter.", "Model.Limiter.accept_trace", trs, sample_ids=[0, 1])
+        print("model accept_trace per side [accepted, events consumed, opens]:", samp)
+        return 0
     o = common.run_impl("limiter", [c], "dev")[0]
     print("case:", json.dumps(c))
     print("impl:", json.dumps(o))
